@@ -240,6 +240,59 @@ func TestVerifC02(t *testing.T) {
 		c02Scenario("tdc-tcp-2", "tdc-tcp", 2, p2),
 		c02Scenario("tdc-udp-2", "tdc-udp", 2, p2),
 		c02Scenario("pipeline-tcp-2", "pipeline-tcp", 2, pp2),
+		c02Tsys("async-tdc-tcp-c2-seq2-idwrap", tOpt{Kind: "tdc-tcp", Callers: 2, Seq: 2, Srv: srvOpt{Reorder: true}, StartQid: 0xFFFF, RewindQid: true, CtxMode: []int{1, 1}}, p2),
+		c02Tsys("async-tdc-udp-c3-reorder", tOpt{Kind: "tdc-udp", Callers: 3, Srv: srvOpt{Reorder: true, Dup: 1}, CtxMode: []int{1, 1, 1}}, pp2),
+		c02Tsys("async-reuse-c2-seq2", tOpt{Kind: "reuse", Callers: 2, Seq: 2, Srv: srvOpt{CloseBudget: 1, CloseAfterAnswerOnly: true}, CtxMode: []int{1, 1}}, pp2),
 	}
 	vr.RunScenarios("C02", scs)
+}
+
+// c02Tsys: the same oracle on the shared transport system (asynchronous server
+// actor that may reorder): an answer for a call's question that the client side
+// fully read while the call was still waiting (context live, not cancelled) must
+// be what the call returns, at that virtual instant.
+func c02Tsys(name string, o tOpt, d int) vr.Scenario {
+	var sys *tsys
+	body := func() {
+		sys = &tsys{opt: o}
+		sys.run()
+	}
+	check := func(x *vs.Exec) (string, *vs.Violation) {
+		s := sys
+		V := func(oracle, why string) (string, *vs.Violation) {
+			return oracle, &vs.Violation{Sig: name + "/" + oracle, Desc: why + "\n" + s.describe()}
+		}
+		if x.Panic != "" {
+			return V("panic", x.Panic)
+		}
+		if !s.finished || len(x.Blocked) > 0 {
+			return V("stuck", fmt.Sprintf("execution did not finish, parked: %v", x.Blocked))
+		}
+		var key []string
+		for _, c := range s.calls {
+			key = append(key, errStr(c.err))
+			if c.refused || c.cancelled || x.EarlyTimers > 0 {
+				continue
+			}
+			var first *answerRec
+			for _, cn := range s.conns {
+				for _, a := range cn.answers {
+					if a.consumed && fk.QName(a.forQuery) == fk.QName(c.q) && a.consumedAt >= c.startAt && a.consumedAt <= c.retAt && (first == nil || a.consumedAt < first.consumedAt) {
+						first = a
+					}
+				}
+			}
+			if first == nil {
+				continue
+			}
+			if c.err != nil {
+				return V("lost:"+classify(c.err), fmt.Sprintf("call %d: a reply to its query was fully read from the connection at t=%v while it was waiting, but it returned error %q at t=%v", c.idx, first.consumedAt, c.err, c.retAt))
+			}
+			if c.retAt != first.consumedAt {
+				return V("late", fmt.Sprintf("call %d: reply read at t=%v, returned at t=%v", c.idx, first.consumedAt, c.retAt))
+			}
+		}
+		return strings.Join(key, ","), nil
+	}
+	return vr.Scenario{Name: name, P: d, D: d, Horizon: time.Minute, Body: body, Check: check, Params: o}
 }
